@@ -38,6 +38,7 @@ type Result struct {
 	OverlayPlain string
 	Sites        []Site
 	Skipped      []string // map ranges left alone (labelled loops etc.)
+	GoSkipped    []string // go statements left alone (variadic / value-returning / more than 4 arguments)
 	WatchedVars  []string
 }
 
@@ -52,6 +53,9 @@ type Options struct {
 	Scheduler bool // also insert scheduling points and replace sync.Mutex
 	// NoMapRanges leaves map ranges alone (scheduler-only build)
 	NoMapRanges bool
+	// Goroutines rewrites go statements into vrt.Go<n>(site, f, args...) and sync.WaitGroup / sync.Mutex into
+	// the vrt types, so that goroutines started by a command are threads of the cooperative scheduler
+	Goroutines bool
 }
 
 // Run instruments the repository.
@@ -209,6 +213,59 @@ func Run(o Options) (*Result, error) {
 				}
 				return true
 			})
+
+			// ---- goroutines of the code under test: go statements -> vrt.Go<n>, sync.WaitGroup/Mutex -> vrt types
+			if o.Goroutines {
+				curFunc = ""
+				ast.Inspect(f, func(n ast.Node) bool {
+					if fd, ok := n.(*ast.FuncDecl); ok {
+						curFunc = fd.Name.Name
+					}
+					replaceGo := func(list []ast.Stmt) {
+						for i, st := range list {
+							gs, ok := st.(*ast.GoStmt)
+							if !ok {
+								continue
+							}
+							pos := p.Fset.Position(gs.Pos())
+							where := fmt.Sprintf("%s:%d", rel, pos.Line)
+							sig, _ := p.TypesInfo.TypeOf(gs.Call.Fun).Underlying().(*types.Signature)
+							if sig == nil || sig.Variadic() || sig.Results().Len() > 0 || sig.Params().Len() > 4 || len(gs.Call.Args) != sig.Params().Len() || gs.Call.Ellipsis.IsValid() {
+								res.GoSkipped = append(res.GoSkipped, where)
+								continue
+							}
+							siteID++
+							res.Sites = append(res.Sites, Site{ID: siteID, Kind: "go", Pos: where, Func: curFunc})
+							args := []ast.Expr{&ast.BasicLit{Kind: token.INT, Value: fmt.Sprint(siteID)}, gs.Call.Fun}
+							args = append(args, gs.Call.Args...)
+							list[i] = &ast.ExprStmt{X: &ast.CallExpr{Fun: &ast.SelectorExpr{X: ast.NewIdent("vrt"), Sel: ast.NewIdent(fmt.Sprintf("Go%d", sig.Params().Len()))}, Args: args}}
+							changed, needImport = true, true
+						}
+					}
+					switch t := n.(type) {
+					case *ast.BlockStmt:
+						replaceGo(t.List)
+					case *ast.CaseClause:
+						replaceGo(t.Body)
+					case *ast.CommClause:
+						replaceGo(t.Body)
+					}
+					return true
+				})
+				ast.Inspect(f, func(n ast.Node) bool {
+					se, ok := n.(*ast.SelectorExpr)
+					if !ok {
+						return true
+					}
+					if id, ok := se.X.(*ast.Ident); ok && id.Name == "sync" && (se.Sel.Name == "Mutex" || se.Sel.Name == "WaitGroup") {
+						if _, isPkg := p.TypesInfo.Uses[id].(*types.PkgName); isPkg {
+							id.Name = "vrt"
+							changed, needImport = true, true
+						}
+					}
+					return true
+				})
+			}
 
 			// ---- scheduler: points before statements touching watched vars; sync.Mutex -> vrt.Mutex
 			if o.Scheduler {
